@@ -512,6 +512,75 @@ def extract_tracing_gates(facts):
         unparsed.append("features: %s" % ex)
 
 
+# ------------------------------------------------------------------ pinned source fragments
+# Small pieces of code whose Coq model is a manual transcription: the normalised source text
+# (comments and whitespace removed, tracing-gated statements removed) is pinned.  Any edit to one of
+# them - harmless or not - means the model was transcribed from a different text, so the tie is
+# reported as broken for the properties that rest on it.
+PINS = {
+    # name: (file, how to find it, tag)
+    "has_path": ("src/lib.rs", ("fn", "has_path"), "pin_dd"),
+    "format_cycle_path": ("src/lib.rs", ("fn", "format_cycle_path"), "pin_dd"),
+    "WaitForGuard::drop": ("src/lib.rs", ("after", r"impl Drop for WaitForGuard"), "pin_dd"),
+    "ask: detection prologue": ("src/actor_ref.rs", ("ask_prologue", None), "pin_dd"),
+    "MetricsCollector::record_message": ("src/metrics/collector.rs", ("fn", "record_message"), "pin_metrics"),
+}
+
+
+def normalise(txt):
+    txt = re.sub(r'#\[cfg\(feature\s*=\s*"tracing"\)\]\s*[^;{}]*;', "", txt)
+    return re.sub(r"\s+", "", txt)
+
+
+def pinned_text(rel, how):
+    src = read(rel)
+    kind, arg = how
+    if kind == "fn":
+        body, params = fn_body(src, arg)
+        if body is None:
+            raise ValueError("fn %s not found" % arg)
+        return normalise(params + "{" + body + "}")
+    if kind == "after":
+        m = re.search(arg, src)
+        if not m:
+            raise ValueError("%s not found" % arg)
+        b0 = src.index("{", m.end())
+        return normalise(src[b0:match_brace(src, b0) + 1])
+    if kind == "ask_prologue":
+        body, _ = fn_body(src, "ask")
+        if body is None:
+            raise ValueError("fn ask not found")
+        m = re.search(r'#\[cfg\(feature\s*=\s*"deadlock-detection"\)\]\s*let\s+_guard\s*=\s*\{', body)
+        if not m:
+            raise ValueError("detection prologue of ask not found")
+        b0 = body.index("{", m.start() + 10)
+        b1 = match_brace(body, b0)
+        # the prologue must come before the envelope is built and sent
+        rest = body[b1:]
+        if ".send(" in body[:m.start()] or ".send(" not in rest:
+            raise ValueError("detection prologue is not before the send")
+        return normalise(body[b0:b1 + 1])
+    raise ValueError("bad pin")
+
+
+def extract_pins(facts):
+    import hashlib
+    here = os.path.join(os.path.dirname(__file__), "shape_pins.json")
+    want = json.load(open(here)) if os.path.exists(here) else {}
+    got = {}
+    for name, (rel, how, tag) in PINS.items():
+        try:
+            txt = pinned_text(rel, how)
+            got[name] = hashlib.sha256(txt.encode()).hexdigest()[:16]
+            if name in want and want[name] != got[name]:
+                unparsed.append("%s: the source text of `%s` (%s) differs from the text the model was transcribed from" % (tag, name, rel))
+        except Exception as ex:  # noqa
+            unparsed.append("%s: %s: %s" % (tag, name, ex))
+    facts["pins"] = got
+    if os.environ.get("SHAPE_WRITE_PINS") == "1":
+        json.dump(got, open(here, "w"), indent=1, sort_keys=True)
+
+
 def main():
     out = sys.argv[1] if len(sys.argv) > 1 else os.path.join(os.path.dirname(__file__), "..", "coq", "Gen", "Shape.v")
     facts = dict(DEFAULTS)
@@ -523,6 +592,7 @@ def main():
     extract_retryable(facts)
     extract_forwarders(facts)
     extract_tracing_gates(facts)
+    extract_pins(facts)
     if facts["forwarders"] is None:
         here = os.path.join(os.path.dirname(__file__), "shape_default_forwarders.json")
         d = json.load(open(here))
